@@ -240,13 +240,13 @@ func (c *Conn) PairSetup(me *Identity, code string, rnd io.Reader) (*Setup, erro
 
 // Verify holds the state of one pair-verify exchange on the controller side.
 type Verify struct {
-	Me         *Identity
-	Priv, Pub  [32]byte // controller ephemeral
-	AccPub     []byte   // accessory ephemeral
-	Shared     []byte
-	EncKey     [32]byte
+	Me          *Identity
+	Priv, Pub   [32]byte // controller ephemeral
+	AccPub      []byte   // accessory ephemeral
+	Shared      []byte
+	EncKey      [32]byte
 	AccessoryID string
-	AccSig     []byte
+	AccSig      []byte
 }
 
 func NewEphemeral(rnd io.Reader) (priv, pub [32]byte) {
